@@ -295,8 +295,13 @@ func newRunner(scratch string, seed int64) (*runner, error) {
 	r := &runner{w: w, seed: seed, pub: pubsubpb.NewPublisherClient(conn), sub: pubsubpb.NewSubscriberClient(conn)}
 	r.stop = func() {
 		_ = conn.Close()
+		// cancelling the context makes the service stop gracefully; Cleanup is
+		// not called concurrently (it would race with that shutdown goroutine)
 		scancel()
-		_ = svc.Cleanup(context.Background())
+		select {
+		case <-errc:
+		case <-time.After(10 * time.Second):
+		}
 		w.Close()
 	}
 	return r, nil
@@ -360,9 +365,17 @@ type cmpCtx struct {
 	via     string
 	out     *[]Mismatch
 	evals   *int
+	// seen remembers the last reported mismatch per field: a wrong value that
+	// merely PERSISTS over later steps is reported once, at the step that caused it
+	seen map[string]string
 }
 
 func (c *cmpCtx) add(field, class, want, got string) {
+	key, val := c.via+"/"+field, want+"|"+got
+	if c.seen[key] == val {
+		return
+	}
+	c.seen[key] = val
 	in := false
 	for _, p := range c.step.Mask {
 		if p == field || strings.HasPrefix(field, p+".") {
@@ -526,6 +539,7 @@ func (r *runner) runCfg(ctx context.Context, idx int, cs *Case) Result {
 	subName := proj + "/subscriptions/s"
 	sent := map[int]*sentVals{}
 	classAt := map[int]Req{}
+	seen := []map[string]string{{}, {}}
 	w := struct {
 		Pub pubsubpb.PublisherClient
 		Sub pubsubpb.SubscriberClient
@@ -632,7 +646,7 @@ func (r *runner) runCfg(ctx context.Context, idx int, cs *Case) Result {
 				evp = &res.Evals
 			}
 			for _, via := range []string{"get", "list"} {
-				c := &cmpCtx{sent: sent, classAt: classAt, names: names, step: st, via: via, out: outp, evals: evp}
+				c := &cmpCtx{sent: sent, classAt: classAt, names: names, step: st, via: via, out: outp, evals: evp, seen: seen[ri]}
 				if via == "get" {
 					c.compareSub(st.Want.Sub[ri], got)
 				} else {
@@ -863,6 +877,7 @@ func main() {
 	scratch := flag.String("scratch", os.TempDir(), "scratch directory")
 	workers := flag.Int("workers", 8, "parallel worlds")
 	seed := flag.Int64("seed", 1, "seed for concrete values")
+	withRT := flag.Bool("rt", true, "add the Scan(Value(d)) = d family over boundary and seeded durations")
 	flag.Parse()
 	f, err := os.Open(*casesPath)
 	if err != nil {
@@ -889,6 +904,9 @@ func main() {
 	addRT := func(d int64) {
 		b, _ := json.Marshal(d)
 		cases = append(cases, &Case{Kind: "rt", Rec: b})
+	}
+	if !*withRT {
+		addRT = func(int64) {}
 	}
 	for _, d := range []int64{0, 1, -1, 999, 1000, 1001, 999999, 1000000, 999999999, 1000000000, 59999999999, 60000000000,
 		3599999999999, 3600000000000, 86400000000000, math.MaxInt64, math.MinInt64, math.MaxInt64 - 1, math.MinInt64 + 1} {
